@@ -75,18 +75,29 @@ func c07Call(c *ctx, fn string, S int, box [4]int, paths [][][2]int, open int, r
 	site := guard(func() {
 		switch fn {
 		case "LineString":
-			if open == 1 {
+			// options are applied in order, the last one decides
+			switch {
+			case open == 1 && c.rr%3 == 0:
+				res = clip.LineString(b, in[0], clip.OpenBound(false), clip.OpenBound(true))
+			case open == 1:
 				res = clip.LineString(b, in[0], clip.OpenBound(true))
-			} else if c.rr%2 == 0 {
+			case c.rr%4 == 0:
 				res = clip.LineString(b, in[0])
-			} else {
+			case c.rr%4 == 1:
+				res = clip.LineString(b, in[0], clip.OpenBound(true), clip.OpenBound(false))
+			default:
 				res = clip.LineString(b, in[0], clip.OpenBound(false))
 			}
 			isNil = res == nil
 		case "MultiLineString":
-			if open == 1 {
+			switch {
+			case open == 1 && c.rr%3 == 0:
+				res = clip.MultiLineString(b, in, clip.OpenBound(false), clip.OpenBound(true))
+			case open == 1:
 				res = clip.MultiLineString(b, in, clip.OpenBound(true))
-			} else {
+			case c.rr%3 == 1:
+				res = clip.MultiLineString(b, in, clip.OpenBound(true), clip.OpenBound(false))
+			default:
 				res = clip.MultiLineString(b, in)
 			}
 			isNil = len(res) == 0
@@ -244,11 +255,37 @@ func init() {
 		for i := 0; i < nr; i++ {
 			x0, y0 := 1+c.rng.Intn(5), 1+c.rng.Intn(5)
 			box := [4]int{x0 * S2, y0 * S2, (x0 + 1 + c.rng.Intn(7-x0)) * S2, (y0 + 1 + c.rng.Intn(7-y0)) * S2}
+			runLen := 32
 			mk := func() [][2]int {
 				k := c.rng.Intn(13)
+				if i%40 == 7 {
+					// long lines (up to 120 vertices) with long runs far from the box on one side of it, then back through it
+					k = 34 + c.rng.Intn(87)
+				}
 				p := make([][2]int, k)
 				for j := range p {
 					p[j] = [2]int{c.rng.Intn(9) * S2, c.rng.Intn(9) * S2}
+					if k >= 34 { // runs of 30 .. 36 vertices in the column left of the box or the row above it, entered from
+						// inside the box and left into it
+						if j%48 == 0 {
+							runLen = 30 + c.rng.Intn(7)
+						}
+						switch {
+						case j%48 >= 6 && j%48 < 6+runLen:
+							if (j/48)%2 == 0 {
+								p[j][0] = 0
+							} else {
+								p[j][1] = 8 * S2
+							}
+							continue
+						case j%48 == 5 || j%48 == 6+runLen:
+							p[j] = [2]int{box[0], box[1]} // a grid vertex of the box: strictly inside it when the box is wide enough
+							if box[2]-box[0] >= 2*S2 && box[3]-box[1] >= 2*S2 {
+								p[j] = [2]int{box[0] + S2, box[1] + S2}
+							}
+							continue
+						}
+					}
 					if j > 0 {
 						switch c.rng.Intn(8) {
 						case 0:
